@@ -35,6 +35,8 @@ pub enum Op {
     RemoveNode(bool, u8),
     /// the value setter of the node behind an entry (attribute_node_mut / namespace_node_mut)
     NodeSetValue(bool, u8, u8),
+    /// append the i-th node of the element's own map to the element again (append_*_node / any_append)
+    ReappendOwnNode(bool, u8, bool),
 }
 // first field: true = attributes, false = namespaces
 
@@ -351,8 +353,15 @@ impl Sys {
                 let m = unsafe_mut(model(self, *attr));
                 let exp_node = match m.iter_mut().find(|x| x.key == ent.key) {
                     Some(x) => {
-                        // existing key: value updated, the other node stays where it was
+                        // existing key: the entry keeps its node and position and takes the value. Whether the node
+                        // that was passed in stays on the other element or is consumed is not pinned by the
+                        // property: the model follows what is observed on the other element.
                         x.val = ent.val.clone();
+                        let still_there = if *attr { self.xot.attributes(self.other).nodes().any(|n| n == ent.node) } else { self.xot.namespaces(self.other).nodes().any(|n| n == ent.node) };
+                        if !still_there {
+                            let src = if *attr { &mut self.oattrs } else { &mut self.onss };
+                            src.retain(|y| y.node != ent.node);
+                        }
                         x.node
                     }
                     None => {
@@ -364,6 +373,22 @@ impl Sys {
                 };
                 if r != exp_node {
                     return Err("returned node is not the node that now holds the key".into());
+                }
+            }
+            ReappendOwnNode(attr, i, any) => {
+                let m = unsafe_mut(model(self, *attr));
+                let Some(ent) = m.get(*i as usize).cloned() else { return Ok(()) };
+                let r = if *any {
+                    self.xot.any_append(e, ent.node)
+                } else if *attr {
+                    self.xot.append_attribute_node(e, ent.node)
+                } else {
+                    self.xot.append_namespace_node(e, ent.node)
+                };
+                let r = r.map_err(|e| format!("unexpected Err {:?}", e))?;
+                // the node already holds its key on this element: nothing changes
+                if r != ent.node {
+                    return Err("re-appending a node of the map returns another node".into());
                 }
             }
             DetachNode(attr, i) | RemoveNode(attr, i) => {
@@ -569,6 +594,8 @@ fn all_ops() -> Vec<Op> {
         }
         v.push(Clear(attr));
         for i in 0..2u8 {
+            v.push(ReappendOwnNode(attr, i, false));
+            v.push(ReappendOwnNode(attr, i, true));
             v.push(AppendNodeFromOther(attr, i));
             v.push(AnyAppendNodeFromOther(attr, i));
         }
@@ -712,7 +739,7 @@ pub fn run(tier: Tier) -> i32 {
         "states": states,
         "transitions": transitions,
         "traces_validated_against_impl": transitions,
-        "rule": "element starting with 0-2 namespace nodes and 0-2 attribute nodes (9 starts), a second element as source of nodes; every history up to the depth bound over map-style (insert, remove, get_mut, entry or_insert / and_modify / occupied insert / occupied remove / vacant insert, clear, set_*, remove_*) and node-style (append_*_node / any_append with fresh nodes and with nodes of the other element, detach / remove of a node, the value setter of the node behind an entry) updates with 3 keys x 2 values per map; after every step every accessor of the read-only and of the mutable view of both maps and Xot's convenience accessors over them (get_attribute, attribute_nodes, get_namespace, namespace_declarations, prefixes), the return values, node identity and the order in to_string (read by XmlRead) are compared with an ordered reference map; states = distinct (ordered contents of both maps of both elements)",
+        "rule": "element starting with 0-2 namespace nodes and 0-2 attribute nodes (9 starts), a second element as source of nodes; every history up to the depth bound over map-style (insert, remove, get_mut, entry or_insert / and_modify / occupied insert / occupied remove / vacant insert, clear, set_*, remove_*) and node-style (append_*_node / any_append with fresh nodes and with nodes of the other element, re-appending a node of the map itself, detach / remove of a node, the value setter of the node behind an entry) updates with 3 keys x 2 values per map; after every step every accessor of the read-only and of the mutable view of both maps and Xot's convenience accessors over them (get_attribute, attribute_nodes, get_namespace, namespace_declarations, prefixes), the return values, node identity and the order in to_string (read by XmlRead) are compared with an ordered reference map; states = distinct (ordered contents of both maps of both elements)",
         "bounds": {"depth": depth, "starts": 9, "ops_per_state": ops.len()},
         "levels_completed": levels,
     });
